@@ -27,6 +27,8 @@ impl Family {
     }
 }
 
+pub const ALL_FAMILIES: &[Family] = &[Family::C03, Family::C04];
+
 pub fn generate(f: Family, ch: &mut Choices) -> Plan {
     match f {
         Family::C03 => gen_c03(ch),
